@@ -283,6 +283,15 @@ def run(prog, rep, tier='quick', config='default'):
             fills = [c for c in f.calls if c.bb in body and c.short in ('insert', 'entry', 'or_insert', 'or_insert_with') and
                      (AFMAP.search(f.ty.get(c.arg_local(0), '') or '') or re.search(r'(Vacant)?Entry<.*Affiliate, usize', f.ty.get(c.arg_local(0), '') or ''))]
             if not fills:
+                # the same record kept as a vector of (affiliate, index) entries: a push whose value holds the row's affiliate and the
+                # position the loop is at
+                for c in f.calls:
+                    if c.bb in body and c.short == 'push' and len(c.args) > 1 and is_place(c.args[1]):
+                        o = mir.provenance(f, c.args[1], follow_all_call_args=True)
+                        if any(fl == 'affiliate' and of.endswith('model::tx::Tx') for (of, fl) in o.fields) and nc in o.calls and \
+                                'usize' in ' '.join(f.ty.get(l, '') for l in o.locals) and 'model::tx::Tx' not in (f.ty.get(c.arg_local(0), '') or ''):
+                            fills.append(c)
+            if not fills:
                 continue
             inner = [1 for (nc2, h2, b2) in f.iterator_loops() if h2 != header and h2 in body and any(c.bb in b2 for c in fills)]
             if inner:
